@@ -170,7 +170,7 @@ def conversion_part(rep):
         n += 1
         if err != "ValueError":
             bad.append(f"float column {s.tolist()} converted to bool {None if out is None else out.tolist()} instead of ValueError")
-    for vals, ty, ok in (([0, 1, 1], bool, True), ([0, 2, 1], bool, False), ([0.0, 1.0], bool, True), ([0.0, 0.5], bool, False), ([True, False], float, False), ([1, 2, 3], float, True),
+    for vals, ty, ok in (([0.0, 0.0, 0.0], bool, True), ([1.0, 1.0], bool, True), ([0, 0], bool, True), ([1, 1, 1], bool, True), ([0, 1, 1], bool, True), ([0, 2, 1], bool, False), ([0.0, 1.0], bool, True), ([0.0, 0.5], bool, False), ([True, False], float, False), ([1, 2, 3], float, True),
                          (["a", "b"], int, False), (["1", "2"], float, False), ([1.0, 2.0], float, True), ([True, False], int, True)):
         s = pd.Series(vals)
         if s.dtype == object or str(s.dtype).startswith("str"):
